@@ -929,7 +929,10 @@ Fixpoint check_replies (limit : Z) (pw : bytes) (reqs : list (list bytes)) (reps
 Fixpoint redirect_refused (reqs : list (list bytes)) (reps : list bytes) (i : nat) : option sx :=
   match reqs, reps with
   | q :: qs, r :: rs =>
-      if (beqb r ErrUnKnownProxyPoolError && negb (existsb (fun k => find_sub k (bs "movx")) (tl q)))%bool
+      let key := hd [] (tl q) in
+      if ((beqb r ErrUnKnownProxyPoolError && negb (existsb (fun k => find_sub k (bs "movx")) (tl q)))
+          || (beqb r ErrUnKnown && beqb (to_lower (hd [] q)) (bs "get")
+              && (find_sub key (bs "mov") || find_sub key (bs "ask")) && negb (find_sub key (bs "movx"))))%bool
       then Some (viol "redirect-to-a-known-node-refused" [snat i; SL (map SB q)])
       else redirect_refused qs rs (S i)
   | _, _ => None
